@@ -25,6 +25,7 @@ import (
 	"github.com/jcmturner/gokrb5/v8/kadmin"
 	"github.com/jcmturner/gokrb5/v8/keytab"
 	"github.com/jcmturner/gokrb5/v8/messages"
+	"github.com/jcmturner/gokrb5/v8/service"
 	"github.com/jcmturner/gokrb5/v8/spnego"
 	"github.com/jcmturner/gokrb5/v8/types"
 	"github.com/jcmturner/gokrb5/v8/zzverif/vclock"
@@ -318,7 +319,7 @@ func Run(c *engine.Ctx) {
 					}
 				}})
 			}
-			for _, nn := range []int64{0, 1, 127, 128, 255, 256, 2147483647, 2147483648, 4294967295} {
+			for _, nn := range []int64{0, 1, 127, 128, 255, 256, 32767, 32768, 65535, 65536, 2147483647, 2147483648, 4294967295, -1, -128, -129, -32768, -32769, -2147483648} {
 				nn := nn
 				vars = append(vars, variant[krbmsg.KDCReqBody]{fmt.Sprintf("nonce=%d", nn), func(v *krbmsg.KDCReqBody) { v.Nonce = nn }})
 			}
@@ -435,7 +436,7 @@ func Run(c *engine.Ctx) {
 				v.Key = krbmsg.EncryptionKey{Type: 23, Value: bytes.Repeat([]byte{1}, 16)}
 			}},
 		)
-		for _, nn := range []int64{0, 255, 2147483648, 4294967295} {
+		for _, nn := range []int64{0, 127, 128, 255, 256, 65535, 65536, 2147483647, 2147483648, 4294967295, -1, -128, -129, -32769, -2147483648} {
 			nn := nn
 			vars = append(vars, variant[krbmsg.EncKDCRepPart]{fmt.Sprintf("nonce=%d", nn), func(v *krbmsg.EncKDCRepPart) { v.Nonce = nn }})
 		}
@@ -727,121 +728,150 @@ func afterDecrypt(c *engine.Ctx) {
 	}
 	vclock.Virtual(apworld.T0)
 	for _, et := range rcrypto.Etypes {
-		cs := apworld.Base(et)
-		m, err := w.Mint(cs)
-		if err != nil {
-			engine.Fatal("mint: %v", err)
-		}
-		key, _ := w.Lookup([]string{"HTTP", apworld.SvcHost}, apworld.Realm, 2, et)
-		// Ticket: Unmarshal, Decrypt, Marshal
-		evals++
-		var t messages.Ticket
-		rec := map[string]interface{}{"etype": et}
-		if err := t.Unmarshal(m.Ticket); err != nil {
-			c.Violate("afterdecrypt", "Ticket:unmarshal", map[string]interface{}{"err": err.Error()}, rec)
-			continue
-		}
-		if err := t.Decrypt(types.EncryptionKey{KeyType: et, KeyValue: key}); err != nil {
-			c.Violate("afterdecrypt", "Ticket:decrypt", map[string]interface{}{"err": err.Error()}, rec)
-			continue
-		}
-		b2, err := t.Marshal()
-		if err != nil || !bytes.Equal(b2, m.Ticket) {
-			c.Violate("afterdecrypt", "Ticket:reencoding-after-Decrypt-differs", map[string]interface{}{"err": fmt.Sprint(err), "len_original": len(m.Ticket), "len_reencoded": len(b2), "contains_session_key": bytes.Contains(b2, m.SessionKey)}, rec)
-		} else {
-			c.Distinct(fmt.Sprintf("after/Ticket/%d", et))
-		}
-		// AP-REQ: Unmarshal, Verify, Marshal
-		evals++
-		var a messages.APReq
-		if err := a.Unmarshal(m.APReq); err != nil {
-			c.Violate("afterdecrypt", "AP-REQ:unmarshal", map[string]interface{}{"err": err.Error()}, rec)
-			continue
-		}
-		if ok, err := a.Verify(kt, 5*time.Minute, types.HostAddress{}, nil); !ok || err != nil {
-			c.Violate("afterdecrypt", "AP-REQ:verify", map[string]interface{}{"err": fmt.Sprint(err)}, rec)
-			continue
-		}
-		b2, err = a.Marshal()
-		if err != nil || !bytes.Equal(b2, m.APReq) {
-			c.Violate("afterdecrypt", "AP-REQ:reencoding-after-Verify-differs", map[string]interface{}{"err": fmt.Sprint(err), "len_original": len(m.APReq), "len_reencoded": len(b2), "contains_session_key": bytes.Contains(b2, m.SessionKey)}, rec)
-		} else {
-			c.Distinct(fmt.Sprintf("after/AP-REQ/%d", et))
-		}
-		// AS-REP / TGS-REP: Unmarshal, DecryptEncPart, Marshal
-		for _, app := range []int{krbmsg.AppASRep, krbmsg.AppTGSRep} {
-			evals++
-			ckey := w.RandKey(et)
-			encApp, mt, usage, name := krbmsg.AppEncASRepPart, int64(11), uint32(3), "AS-REP"
-			if app == krbmsg.AppTGSRep {
-				encApp, mt, usage, name = krbmsg.AppEncTGSRepPart, 13, 8, "TGS-REP"
-			}
-			part := krbmsg.EncKDCRepPart{App: encApp, Key: krbmsg.EncryptionKey{Type: et, Value: m.SessionKey}, LastReqs: []krbmsg.LastReq{{Type: 0, Value: apworld.T0}}, Nonce: 77, Flags: 0x40800000,
-				AuthTime: apworld.T0, StartTime: krbmsg.Tm(apworld.T0), EndTime: apworld.T0.Add(8 * time.Hour), SRealm: apworld.Realm, SName: krbmsg.PrincipalName{Type: 3, Names: []string{"HTTP", apworld.SvcHost}}}
-			p, _ := rcrypto.Get(et)
-			ct, err := rcrypto.EncryptWithConfounder(et, ckey, usage, make([]byte, p.Conf), part.Encode())
+		for _, kvno := range []int{2, 0} { // the ticket's kvno field present / omitted
+			cs := apworld.Base(et)
+			cs.TktKVNO = kvno
+			m, err := w.Mint(cs)
 			if err != nil {
-				engine.Fatal("encrypt: %v", err)
+				engine.Fatal("mint: %v", err)
 			}
-			rep := krbmsg.KDCRep{App: app, PVNO: 5, MsgType: mt, CRealm: apworld.Realm, CName: krbmsg.PrincipalName{Type: 1, Names: []string{"user1"}}, Ticket: m.Ticket, Enc: krbmsg.EncryptedData{EType: et, KVNO: krbmsg.I64(1), Cipher: ct}}
-			rb := rep.Encode()
-			gkey := types.EncryptionKey{KeyType: et, KeyValue: ckey}
-			var out []byte
-			var derr error
-			if app == krbmsg.AppASRep {
-				var k messages.ASRep
-				if derr = k.Unmarshal(rb); derr == nil {
-					// decrypt with the key directly (credentials are exercised in C09)
-					var pt []byte
-					pt, derr = cryptoDecrypt(k.EncPart, gkey, usage)
-					if derr == nil {
-						derr = k.DecryptedEncPart.Unmarshal(pt)
-					}
-					if derr == nil {
-						out, derr = k.Marshal()
-					}
-				}
-			} else {
-				var k messages.TGSRep
-				if derr = k.Unmarshal(rb); derr == nil {
-					if derr = k.DecryptEncPart(gkey); derr == nil {
-						out, derr = k.Marshal()
-					}
+			key, _ := w.Lookup([]string{"HTTP", apworld.SvcHost}, apworld.Realm, 2, et)
+			rec := map[string]interface{}{"etype": et, "ticket_kvno_field": kvno}
+			// Ticket: Unmarshal, DecryptEncPart through the keytab, Marshal
+			evals++
+			var tk messages.Ticket
+			if err := tk.Unmarshal(m.Ticket); err == nil {
+				if err := tk.DecryptEncPart(kt, nil); err != nil {
+					c.Violate("afterdecrypt", "Ticket:decrypt-through-keytab", map[string]interface{}{"err": err.Error()}, rec)
+				} else if b2, err := tk.Marshal(); err != nil || !bytes.Equal(b2, m.Ticket) {
+					c.Violate("afterdecrypt", "Ticket:reencoding-after-DecryptEncPart-differs", map[string]interface{}{"err": fmt.Sprint(err), "len_original": len(m.Ticket), "len_reencoded": len(b2)}, rec)
+				} else {
+					c.Distinct(fmt.Sprintf("after/Ticket-keytab/%d/%d", et, kvno))
 				}
 			}
-			if derr != nil {
-				c.Violate("afterdecrypt", name+":decrypt", map[string]interface{}{"err": derr.Error()}, rec)
+			// AP-REQ through service.VerifyAPREQ, then Marshal
+			evals++
+			var sa messages.APReq
+			if err := sa.Unmarshal(m.APReq); err == nil {
+				service.VerifResetReplayCache()
+				if ok, _, err := service.VerifyAPREQ(&sa, service.NewSettings(kt, service.DecodePAC(false))); !ok || err != nil {
+					c.Violate("afterdecrypt", "AP-REQ:VerifyAPREQ", map[string]interface{}{"err": fmt.Sprint(err)}, rec)
+				} else if b2, err := sa.Marshal(); err != nil || !bytes.Equal(b2, m.APReq) {
+					c.Violate("afterdecrypt", "AP-REQ:reencoding-after-VerifyAPREQ-differs", map[string]interface{}{"err": fmt.Sprint(err), "len_original": len(m.APReq), "len_reencoded": len(b2)}, rec)
+				} else {
+					c.Distinct(fmt.Sprintf("after/AP-REQ-service/%d/%d", et, kvno))
+				}
+				service.VerifResetReplayCache()
+			}
+			// Ticket: Unmarshal, Decrypt, Marshal
+			evals++
+			var t messages.Ticket
+			if err := t.Unmarshal(m.Ticket); err != nil {
+				c.Violate("afterdecrypt", "Ticket:unmarshal", map[string]interface{}{"err": err.Error()}, rec)
 				continue
 			}
-			if !bytes.Equal(out, rb) {
-				c.Violate("afterdecrypt", name+":reencoding-after-DecryptEncPart-differs", map[string]interface{}{"len_original": len(rb), "len_reencoded": len(out), "contains_session_key": bytes.Contains(out, m.SessionKey)}, rec)
-			} else {
-				c.Distinct(fmt.Sprintf("after/%s/%d", name, et))
+			if err := t.Decrypt(types.EncryptionKey{KeyType: et, KeyValue: key}); err != nil {
+				c.Violate("afterdecrypt", "Ticket:decrypt", map[string]interface{}{"err": err.Error()}, rec)
+				continue
 			}
-		}
-		// KRB-PRIV: Unmarshal, DecryptEncPart, Marshal
-		evals++
-		pp := krbmsg.EncKrbPrivPart{UserData: []byte("secret user data"), Timestamp: krbmsg.Tm(apworld.T0), Usec: krbmsg.I64(5), SeqNum: krbmsg.I64(9), SAddress: apworld.AddrMatch}
-		pr, _ := rcrypto.Get(et)
-		pct, _ := rcrypto.EncryptWithConfounder(et, m.SessionKey, 13, make([]byte, pr.Conf), pp.Encode())
-		pb := krbmsg.KRBPriv{PVNO: 5, MsgType: 21, Enc: krbmsg.EncryptedData{EType: et, Cipher: pct}}.Encode()
-		var kp messages.KRBPriv
-		if err := kp.Unmarshal(pb); err != nil {
-			c.Violate("afterdecrypt", "KRB-PRIV:unmarshal", map[string]interface{}{"err": err.Error()}, rec)
-			continue
-		}
-		if err := kp.DecryptEncPart(types.EncryptionKey{KeyType: et, KeyValue: m.SessionKey}); err != nil {
-			c.Violate("afterdecrypt", "KRB-PRIV:decrypt", map[string]interface{}{"err": err.Error()}, rec)
-			continue
-		}
-		if string(kp.DecryptedEncPart.UserData) != "secret user data" {
-			c.Violate("afterdecrypt", "KRB-PRIV:wrong-user-data", nil, rec)
-		}
-		b2, err = kp.Marshal()
-		if err != nil || !bytes.Equal(b2, pb) {
-			c.Violate("afterdecrypt", "KRB-PRIV:reencoding-after-DecryptEncPart-differs", map[string]interface{}{"err": fmt.Sprint(err), "len_original": len(pb), "len_reencoded": len(b2)}, rec)
-		} else {
-			c.Distinct(fmt.Sprintf("after/KRB-PRIV/%d", et))
+			b2, err := t.Marshal()
+			if err != nil || !bytes.Equal(b2, m.Ticket) {
+				c.Violate("afterdecrypt", "Ticket:reencoding-after-Decrypt-differs", map[string]interface{}{"err": fmt.Sprint(err), "len_original": len(m.Ticket), "len_reencoded": len(b2), "contains_session_key": bytes.Contains(b2, m.SessionKey)}, rec)
+			} else {
+				c.Distinct(fmt.Sprintf("after/Ticket/%d", et))
+			}
+			// AP-REQ: Unmarshal, Verify, Marshal
+			evals++
+			var a messages.APReq
+			if err := a.Unmarshal(m.APReq); err != nil {
+				c.Violate("afterdecrypt", "AP-REQ:unmarshal", map[string]interface{}{"err": err.Error()}, rec)
+				continue
+			}
+			if ok, err := a.Verify(kt, 5*time.Minute, types.HostAddress{}, nil); !ok || err != nil {
+				c.Violate("afterdecrypt", "AP-REQ:verify", map[string]interface{}{"err": fmt.Sprint(err)}, rec)
+				continue
+			}
+			b2, err = a.Marshal()
+			if err != nil || !bytes.Equal(b2, m.APReq) {
+				c.Violate("afterdecrypt", "AP-REQ:reencoding-after-Verify-differs", map[string]interface{}{"err": fmt.Sprint(err), "len_original": len(m.APReq), "len_reencoded": len(b2), "contains_session_key": bytes.Contains(b2, m.SessionKey)}, rec)
+			} else {
+				c.Distinct(fmt.Sprintf("after/AP-REQ/%d", et))
+			}
+			// AS-REP / TGS-REP: Unmarshal, DecryptEncPart, Marshal
+			for _, app := range []int{krbmsg.AppASRep, krbmsg.AppTGSRep} {
+				evals++
+				ckey := w.RandKey(et)
+				encApp, mt, usage, name := krbmsg.AppEncASRepPart, int64(11), uint32(3), "AS-REP"
+				if app == krbmsg.AppTGSRep {
+					encApp, mt, usage, name = krbmsg.AppEncTGSRepPart, 13, 8, "TGS-REP"
+				}
+				part := krbmsg.EncKDCRepPart{App: encApp, Key: krbmsg.EncryptionKey{Type: et, Value: m.SessionKey}, LastReqs: []krbmsg.LastReq{{Type: 0, Value: apworld.T0}}, Nonce: 77, Flags: 0x40800000,
+					AuthTime: apworld.T0, StartTime: krbmsg.Tm(apworld.T0), EndTime: apworld.T0.Add(8 * time.Hour), SRealm: apworld.Realm, SName: krbmsg.PrincipalName{Type: 3, Names: []string{"HTTP", apworld.SvcHost}}}
+				p, _ := rcrypto.Get(et)
+				ct, err := rcrypto.EncryptWithConfounder(et, ckey, usage, make([]byte, p.Conf), part.Encode())
+				if err != nil {
+					engine.Fatal("encrypt: %v", err)
+				}
+				rep := krbmsg.KDCRep{App: app, PVNO: 5, MsgType: mt, CRealm: apworld.Realm, CName: krbmsg.PrincipalName{Type: 1, Names: []string{"user1"}}, Ticket: m.Ticket, Enc: krbmsg.EncryptedData{EType: et, KVNO: krbmsg.I64(1), Cipher: ct}}
+				rb := rep.Encode()
+				gkey := types.EncryptionKey{KeyType: et, KeyValue: ckey}
+				var out []byte
+				var derr error
+				if app == krbmsg.AppASRep {
+					var k messages.ASRep
+					if derr = k.Unmarshal(rb); derr == nil {
+						// decrypt with the key directly (credentials are exercised in C09)
+						var pt []byte
+						pt, derr = cryptoDecrypt(k.EncPart, gkey, usage)
+						if derr == nil {
+							derr = k.DecryptedEncPart.Unmarshal(pt)
+						}
+						if derr == nil {
+							out, derr = k.Marshal()
+						}
+					}
+				} else {
+					var k messages.TGSRep
+					if derr = k.Unmarshal(rb); derr == nil {
+						if derr = k.DecryptEncPart(gkey); derr == nil {
+							out, derr = k.Marshal()
+						}
+					}
+				}
+				if derr != nil {
+					c.Violate("afterdecrypt", name+":decrypt", map[string]interface{}{"err": derr.Error()}, rec)
+					continue
+				}
+				if !bytes.Equal(out, rb) {
+					c.Violate("afterdecrypt", name+":reencoding-after-DecryptEncPart-differs", map[string]interface{}{"len_original": len(rb), "len_reencoded": len(out), "contains_session_key": bytes.Contains(out, m.SessionKey)}, rec)
+				} else {
+					c.Distinct(fmt.Sprintf("after/%s/%d", name, et))
+				}
+			}
+			// KRB-PRIV: Unmarshal, DecryptEncPart, Marshal
+			evals++
+			pp := krbmsg.EncKrbPrivPart{UserData: []byte("secret user data"), Timestamp: krbmsg.Tm(apworld.T0), Usec: krbmsg.I64(5), SeqNum: krbmsg.I64(9), SAddress: apworld.AddrMatch}
+			pr, _ := rcrypto.Get(et)
+			pct, _ := rcrypto.EncryptWithConfounder(et, m.SessionKey, 13, make([]byte, pr.Conf), pp.Encode())
+			pb := krbmsg.KRBPriv{PVNO: 5, MsgType: 21, Enc: krbmsg.EncryptedData{EType: et, Cipher: pct}}.Encode()
+			var kp messages.KRBPriv
+			if err := kp.Unmarshal(pb); err != nil {
+				c.Violate("afterdecrypt", "KRB-PRIV:unmarshal", map[string]interface{}{"err": err.Error()}, rec)
+				continue
+			}
+			if err := kp.DecryptEncPart(types.EncryptionKey{KeyType: et, KeyValue: m.SessionKey}); err != nil {
+				c.Violate("afterdecrypt", "KRB-PRIV:decrypt", map[string]interface{}{"err": err.Error()}, rec)
+				continue
+			}
+			if string(kp.DecryptedEncPart.UserData) != "secret user data" {
+				c.Violate("afterdecrypt", "KRB-PRIV:wrong-user-data", nil, rec)
+			}
+			b2, err = kp.Marshal()
+			if err != nil || !bytes.Equal(b2, pb) {
+				c.Violate("afterdecrypt", "KRB-PRIV:reencoding-after-DecryptEncPart-differs", map[string]interface{}{"err": fmt.Sprint(err), "len_original": len(pb), "len_reencoded": len(b2)}, rec)
+			} else {
+				c.Distinct(fmt.Sprintf("after/KRB-PRIV/%d", et))
+			}
 		}
 	}
 }
